@@ -45,8 +45,8 @@ def run_case(case):
             os.remove(os.path.join(d, fn))
     aldy.common.json.clear()
     build = case["build"]
-    # the second gene's name is contained in the first one's (as CYP3A4 is in CYP3A43): each must still be replayed from its own dump
-    specs = [("ga", case["db"], "GAB")] + ([("gb", case["db2"], "GA")] if case.get("db2") else [])
+    # the second gene's name is contained in the first one's (as CYP3A4 is in CYP3A43; the containing name also sorts first): each must still be replayed from its own dump
+    specs = [("ga", case["db"], "AGA")] + ([("gb", case["db2"], "GA")] if case.get("db2") else [])
     sims_reads = []
     dbs = []
     indel = False
